@@ -20,6 +20,14 @@ METHODS = [('clean', [('empty', 'C04 C08'), ('wf', 'C04 C08'), ('events', 'C12')
            ('remove', [('val', 'C04 C08'), ('wf', 'C04 C08'), ('frame', 'C04 C08'), ('events', 'C12')])]
 
 
+SGM_REQ = [E('has', 'old(self).has(id)')]
+SGM_ENS = [E('val', '*r == old(self).val(id) && final(self).val(id) == *final(r)', 'C04 C06 C13'),
+           E('wf', 'old(self).us_wf() ==> final(self).us_wf()', 'C04'),
+           E('frame', '(forall|j: Index| #![trigger final(self).has(j)] final(self).has(j) == old(self).has(j)) && (forall|j: Index| #![trigger final(self).val(j)] j != id ==> final(self).val(j) == old(self).val(j))', 'C04 C06 C13')]
+# N3 (sequentialisation of the shared-access variant used by non-lending / parallel joins): `&self` -> `&mut self`, the cell's `get()` ->
+# `get_mut()`, so that `unsafe { &mut *ptr }` is an ordinary reborrow; what is lost is exactly the aliasing between simultaneous callers (C07)
+
+
 def add_dense(u, extra=''):
     u.struct(ST, ['struct DenseVecStorage'], attr='#[verifier::reject_recursive_types(T)]')
     DH = 'impl<T> UnprotectedStorage<T> for DenseVecStorage<T>'
@@ -54,6 +62,17 @@ def add_map_kind(u, name):
     for (m, labels) in METHODS:
         u.fn(ST, [H, 'fn ' + m], props='C04', group=g, key='%s::%s' % (name, m),
              rules=N8 + [('N20', r'self\.0\[&id\]', 'self.0.index(&id)')], hint_obligations=TRAIT(m, labels))
+    u.fn(ST, ['impl<T> SharedGetMutStorage<T> for %s<T>' % name, 'fn shared_get_mut'], ret='r', props='C04 C06 C13', key=name + '::shared_get_mut',
+         impl_header='impl<T> %s<T>' % name, mut_self=True,
+         rules=[('N3', r'self\.0\[&id\]\.get\(\)', 'self.0.get_mut(&id).unwrap().get_mut()')],
+         requires=SGM_REQ, ensures=SGM_ENS)
+
+
+def add_dense_shared(u):
+    u.fn(ST, ['impl<T> SharedGetMutStorage<T> for DenseVecStorage<T>', 'fn shared_get_mut'], ret='r', props='C04 C06 C13', key='DenseVecStorage::shared_get_mut',
+         impl_header='impl<T> DenseVecStorage<T>', mut_self=True,
+         rules=[('N3', r'unsafe \{ self\.data\.get_unchecked\(did as usize\) \}\.get\(\)', 'unsafe { vec_get_unchecked_mut(&mut self.data, did as usize) }.get_mut()')] + N19,
+         requires=SGM_REQ, ensures=SGM_ENS)
 
 
 DENSE = {
@@ -69,6 +88,7 @@ def build():
     u.struct('src/storage/track.rs', ['enum ComponentEvent'], derive='Clone, Copy, PartialEq, Eq, Structural')
     _common.add_trait(u)
     add_dense(u)
+    add_dense_shared(u)
     add_map_kind(u, 'HashMapStorage')
     add_map_kind(u, 'BTreeStorage')
     return u
